@@ -568,10 +568,10 @@ theorem finish_extractor_raises (env : Env) (hh : Healthy env) (w : World) (h : 
   · exact (staged_get _ _ _ hg1).trans b1
   · refine (staged_get _ _ _ hg2).trans ?_
     rw [b2 _ (by decide) (by decide) (by decide) (by decide)]
-    simp [tracebackFields, Fields.update, Fields.get?]
+    simp [tracebackFields, Fields.update, Fields.get?, Fields.set]
   · refine (staged_get _ _ _ hg3).trans ?_
     rw [b2 _ (by decide) (by decide) (by decide) (by decide)]
-    simp [tracebackFields, Fields.update, Fields.get?]
+    simp [tracebackFields, Fields.update, Fields.get?, Fields.set]
   · rw [s7 k k1 k2 k3]; rfl
 
 /-- **extractor_raise_contained**: the body of `with action:` raised `e`, the extractor registered for
